@@ -156,15 +156,16 @@ fn jacobian<T: Ev + Re + Sc>(t: &mut Toks, cx: &mut Ctx, run: impl Fn(Vector<T>,
             let dl = T::from_f(delta);
             if j.rows() == m && j.cols() == n && tr.len() == n + 1 {
                 for c in 0..n {
-                    // perturbed point: coordinate c is x_c + delta, earlier coordinates were restored to (x + delta) - delta, later ones untouched
-                    // ("each coordinate is restored before the next is perturbed": either by undoing the perturbation or by putting the saved value back)
-                    let ok_pt = (0..n).all(|k| { if k == c { tr[c + 1][k].same(&(point[k] + dl)) } else if k < c { tr[c + 1][k].same(&((point[k] + dl) - dl)) || tr[c + 1][k].same(&point[k]) } else { tr[c + 1][k].same(&point[k]) } });
+                    // perturbed point: coordinate c is x_c + delta, every other coordinate HAS ITS ORIGINAL VALUE ("each coordinate is restored
+                    // before the next is perturbed"; (x + delta) - delta is not x when x is tiny against delta: defect D15)
+                    let ok_pt = (0..n).all(|k| { if k == c { tr[c + 1][k].same(&(point[k] + dl)) } else if k < c { tr[c + 1][k].same(&point[k]) } else { tr[c + 1][k].same(&point[k]) } });
                     cx.check(ok_pt, &format!("evaluation point {} is not x with coordinate {} perturbed (restore-after-perturb violated)", c + 1, c));
                     for i in 0..m { let q = (os[c + 1][i] - os[0][i]) / dl; cx.check(j[(i, c)].same(&q), &format!("entry ({}, {}) is not the forward difference quotient", i, c)); }
                 }
                 if family == "affine" {
                     // dyadic data: J equals the coefficient matrix exactly
-                    for i in 0..m { for c in 0..n { if let Some(d) = f.comps[i].diff(c) { let e = d.eval(&point); let dyadic = delta.to_bits() & ((1u64 << 52) - 1) == 0;   // delta = 2^-k: every intermediate is exact
+                    for i in 0..m { for c in 0..n { if !((point[c] + dl) - point[c]).same(&dl) { continue; }   // (the step actually taken is not delta: x_c + delta is not representable; no exactness claim for THIS column)
+                        if let Some(d) = f.comps[i].diff(c) { let e = d.eval(&point); let dyadic = delta.to_bits() & ((1u64 << 52) - 1) == 0;   // delta = 2^-k: every intermediate is exact
                         // non-dyadic delta: both evaluations round; the error of a sum of n+1 terms is bounded through the
                         // sum of the term magnitudes (not through |f|, which may be small by cancellation)
                         let terms: f64 = (0..n).map(|q| f.comps[i].diff(q).map(|dq| dq.eval(&point).mag() * (point[q].mag() + delta.abs())).unwrap_or(0.0)).sum();
@@ -371,5 +372,19 @@ pub fn gen_c18(rng: &mut Rng, tier: Tier, out: &mut Vec<String>) {
             let comps: Vec<E<Cmplx>> = (0..m).map(|_| { let mut e: E<Cmplx> = Expr::Const(Cmplx::new(rng.range(-4, 4) as f64, rng.range(-4, 4) as f64)); for j in 0..n { if rng.chance(40) { e = add(e, mul(Expr::Const(Cmplx::new(rng.range(-4, 4) as f64 / 2.0, rng.range(-4, 4) as f64 / 2.0)), v(j))); } } e }).collect();
             out.push(format!("jacobian c {} {} affine {}", wr_vec(&cp), delta.wr(), VFn { comps, ext: None }.show()));
         }
+    }
+
+    // a coordinate that is TINY against the step (|x_k| <= delta 2^-53, absorbed by x_k + delta) with a large coefficient: the columns
+    // AFTER k are exact only if x_k gets its original value back ((x_k + delta) - delta is 0, not x_k)
+    for i in 0..(if tier == Tier::Quick { 12 } else { 240 }) {
+        let (m, n) = (1 + rng.below(4), 2 + rng.below(4));
+        let kk = rng.below(n - 1);                      // not the last coordinate: a later column must exist
+        let kd = 4 + rng.below(6) as i32; let delta = 2f64.powi(-kd);
+        let mut point: Vec<f64> = (0..n).map(|_| rng.range(-16, 16) as f64 / 4.0).collect();
+        point[kk] = 2f64.powi(-kd - 56) * if rng.chance(50) { 1.0 } else { -1.0 };
+        let comps: Vec<E<f64>> = (0..m).map(|r| { let mut e: E<f64> = k(rng.range(-8, 8) as f64 / 2.0);
+            for j in 0..n { let cf = if j == kk { if r == 0 || rng.chance(50) { 2f64.powi(40) } else { 0.0 } } else { rng.range(-8, 8) as f64 / 2.0 }; e = add(e, mul(k(cf), v(j))); } e }).collect();
+        let _ = i;
+        out.push(format!("jacobian f {} {} affine {}", wr_vec(&point), delta.wr(), VFn { comps, ext: None }.show()));
     }
 }
